@@ -389,6 +389,8 @@ def rule_status(ctx: Ctx, repo: Repo) -> None:
                 return K(None)
             if m == "cli_context":
                 return R("opaque", what=K("cli_context"))
+            if (fname or "").split(".")[-1] == "ArgumentParser" or m in ("add_subparsers", "add_parser", "add_mutually_exclusive_group", "add_argument_group"):
+                return R("opaque", what=K("argparse object"))  # the parser, a sub-parser or a group: an object, never None
             return None
 
         sc = CliScenario(repo, CLI, "main", hook3)
